@@ -24,6 +24,7 @@
     vocabulary of the monitor (`normalSentCount`, `share`).
 -/
 import MbVerif.Proofs.SimMatch
+import MbVerif.Proofs.SimRaw
 import MbVerif.Spec.C15
 
 namespace Mb.C15
@@ -212,6 +213,46 @@ theorem C15_causality_matching (budget : Nat) (mc ms : List Machine) (trace : Li
     (hok : ∀ f, (simAdvanced ρ budget mc ms (parseTrace trace delay) a orc).stop ≠ .fault f) :
     causality delay (simAdvanced ρ budget mc ms (parseTrace trace delay) a orc).trace = true :=
   causality_of_hall delay _ (fun c pd T => C15_causality_trace ρ budget mc ms trace delay a orc hd hoc hon hok c pd T)
+
+/-! ### raw input traces (all six direction tokens `s sn r rn sp rp` of `parse_trace`)
+
+A side's *share* of a raw trace is the number of its normal lines (`s`/`sn` for the client,
+`r`/`rn` for the server): `share (normalLines raw) c`.  Padding lines `sp` / `rp` are ignored by
+the parser, so they neither create packets nor count. -/
+
+/-- **Padding lines of the input create nothing**: the queue parsed from a raw trace is the queue
+    parsed from its normal lines (same events, same trace-derived packets-per-second limit). -/
+theorem C15_padding_lines_ignored (raw : List RawLine) (delay : Nat) :
+    parseTraceRaw raw delay = parseTrace (normalLines raw) delay :=
+  parseTraceRaw_eq raw delay
+
+/-- conservation for raw traces -/
+theorem C15_conservation_raw (budget : Nat) (mc ms : List Machine) (raw : List RawLine) (delay : Nat) (a : Args) (orc : σ) :
+    (∀ c, (simAdvanced ρ budget mc ms (parseTraceRaw raw delay) a orc).stream.countP (sentNormal c)
+        ≤ shareOf (normalLines raw) c) ∧
+    ((simAdvanced ρ budget mc ms (parseTraceRaw raw delay) a orc).stop = .noNormal →
+      ∀ c, (simAdvanced ρ budget mc ms (parseTraceRaw raw delay) a orc).stream.countP (sentNormal c)
+        = shareOf (normalLines raw) c) := by
+  rw [parseTraceRaw_eq]
+  exact C15_conservation ρ budget mc ms (normalLines raw) delay a orc
+
+/-- conservation for raw traces, on the returned unfiltered trace, in the monitor's vocabulary -/
+theorem C15_conservation_trace_raw (budget : Nat) (mc ms : List Machine) (raw : List RawLine) (delay : Nat) (a : Args)
+    (orc : σ) (hoc : a.onlyClientEvents = false) (hon : a.onlyNetworkActivity = false)
+    (hok : ∀ f, (simAdvanced ρ budget mc ms (parseTraceRaw raw delay) a orc).stop ≠ .fault f) (c : Bool) :
+    normalSentCount (simAdvanced ρ budget mc ms (parseTraceRaw raw delay) a orc).trace c ≤ share (normalLines raw) c ∧
+    ((simAdvanced ρ budget mc ms (parseTraceRaw raw delay) a orc).stop = .noNormal →
+      normalSentCount (simAdvanced ρ budget mc ms (parseTraceRaw raw delay) a orc).trace c = share (normalLines raw) c) := by
+  rw [parseTraceRaw_eq] at hok ⊢
+  exact C15_conservation_trace ρ budget mc ms (normalLines raw) delay a orc hoc hon hok c
+
+/-- causality (the monitor's matching predicate) for raw traces -/
+theorem C15_causality_matching_raw (budget : Nat) (mc ms : List Machine) (raw : List RawLine) (delay : Nat) (a : Args)
+    (orc : σ) (hd : a.network.delay = delay) (hoc : a.onlyClientEvents = false) (hon : a.onlyNetworkActivity = false)
+    (hok : ∀ f, (simAdvanced ρ budget mc ms (parseTraceRaw raw delay) a orc).stop ≠ .fault f) :
+    causality delay (simAdvanced ρ budget mc ms (parseTraceRaw raw delay) a orc).trace = true := by
+  rw [parseTraceRaw_eq] at hok ⊢
+  exact C15_causality_matching ρ budget mc ms (normalLines raw) delay a orc hd hoc hon hok
 
 /-- non-vacuity of `C15_final_sort_identity`'s hypothesis and of the ordering theorem: the
     concrete two-packet run ends without a fault after 7 iterations -/
